@@ -50,6 +50,12 @@ func (d *Decoder) ExpectTypesInInterface(types ...reflect.Type) {
 	d.expectedTypes = types
 }
 
+// CheckErr returns first error occurred while decoding, like Encoder.CheckErr does. Custom unmarshalers must
+// check it, cause Pop* methods return zero values after the error
+func (d *Decoder) CheckErr() error {
+	return d.err
+}
+
 func (d *Decoder) read(buf []byte) {
 	if d.err != nil {
 		return
@@ -108,6 +114,14 @@ func (d *Decoder) PopUint() uint32 {
 }
 
 func (d *Decoder) PopRawBytes(size int) []byte {
+	if d.err != nil {
+		return nil
+	}
+	if size < 0 || size > d.buf.Len() {
+		d.err = fmt.Errorf("can't read %v bytes: have only %v", size, d.buf.Len())
+		return nil
+	}
+
 	val := make([]byte, size)
 	d.read(val)
 	if d.err != nil {
@@ -195,6 +209,12 @@ func (d *Decoder) popVector(as reflect.Type, ignoreCRC bool) any {
 		return nil
 	}
 
+	// every element takes at least one byte, so announced size can't be larger than rest of the message
+	if int64(size) > int64(d.buf.Len()) {
+		d.err = fmt.Errorf("vector size %v is larger than rest of the message (%v bytes)", size, d.buf.Len())
+		return nil
+	}
+
 	x := reflect.MakeSlice(reflect.SliceOf(as), int(size), int(size))
 	for i := 0; i < int(size); i++ {
 		var val reflect.Value
@@ -247,6 +267,11 @@ func (d *Decoder) PopMessage() []byte {
 
 		realSize = int(binary.LittleEndian.Uint32(val))
 		lenNumberSize = WordLen
+	}
+
+	if realSize > d.buf.Len() {
+		d.err = fmt.Errorf("message size %v is larger than rest of the data (%v bytes)", realSize, d.buf.Len())
+		return nil
 	}
 
 	// этот буффер и будет уже реальным собщением
